@@ -57,66 +57,77 @@ def conc_suite(profile, n_quick, n_thorough, sched_quick, sched_thorough, focus,
             for k in range(nsched):
                 name = "%s_%s_%d_%d_%d" % (ctx.prop, profile, ctx.seed, i, k)
                 runs.append((name, progs, rng.randrange(1 << 30), rng.choice([0, 10, 30, 80])))
-        B = 400
+        okh, exe_h, logh = vlib.build_harness(src="conc_q.cpp", out_name="conc_q_heter", defines=["VQ_HETER=1"])
+        ctx.oblige("harness conc_q_heter (HeterEventQueue, same model) builds from /repo/include", okh, logh[-2000:])
+        all_runs = runs
+        variants = [("conc_q", exe, None)]
+        if okh:
+            variants.append(("conc_q_heter", exe_h, suite_conc.HETER_OK))
         nfail = 0
         norc = 0
-        for off in range(0, len(runs), B):
-            chunk = runs[off:off + B]
-            text = "".join(suite_conc.run_text(*r) for r in chunk)
-            rc, out, err = vlib.run_harness(exe, text, timeout=600)
-            mtext = ""
-            for name, progs, seed, spur in chunk:
-                sec = out.get(name)
-                if sec is None:
-                    continue
-                mtext += "--- %s\nflag %d\n" % (name, flag) + "".join("thread %s\n" % " ".join(p) for p in progs)
-                mtext += "\n".join(l for l in sec if l.startswith("step ")) + "\n"
-            rcm, mout, errm = vlib.run_driver("conc", mtext, timeout=900)
-            for name, progs, seed, spur in chunk:
-                ctx.cov["evaluations"] += 1
-                sec = out.get(name)
-                script = suite_conc.run_text(name, progs, seed, spur)
-                if sec is None:
-                    nfail += 1
-                    if nfail <= 3:
-                        ctx.fail("violation", "implementation crashed / hung before this run finished (rc=%s): %s" % (rc, err[-800:]), script, "conc_q/" + profile)
-                    continue
-                di = suite_conc.parse(sec)
-                orc = suite_conc.impl_oracles(progs, di)
-                ctx.dist["steps"] += len(di["steps"])
-                ctx.dist["threads"] += len(progs)
-                ctx.dist["terminal_with_parked"] += 1 if (di["terminal"] and di["parked"]) else 0
-                if orc:
-                    nfail += 1
-                    norc += 1
-                    if norc <= 3:
-                        kind = "violation"
-                        ctx.fail(kind, "%s: %s" % orc, script + "# schedule (global order of the performed micro-steps):\n" + "\n".join("# " + l for l in di["steps"]),
-                                 "conc_q/" + profile, "\n".join(sec[-12:]))
-                        ctx.failures[-1]["classifier"] = "%s:%s" % (orc[0], "lost-wakeup" if orc[0] == "C07" else "conservation")
-                        ctx.failures[-1]["found_prop"] = orc[0]
-                    continue
-                dm = suite_conc.parse(mout.get(name, []))
-                why = None
-                if dm["mismatch"]:
-                    why = dm["mismatch"][0]
-                elif focus == "C11" and dm["c11bad"] and not any(c in suite_conc.PUTBACK for p in progs for c in p):
-                    why = dm["c11bad"][0]
-                else:
-                    why = suite_conc.compare(di, dm)
-                if why:
-                    nfail += 1
-                    if nfail <= 3:
-                        kind = "violation" if "c11bad" in why else "correspondence"
-                        ctx.fail(kind, why, script + "# schedule:\n" + "\n".join("# " + l for l in di["steps"]), "conc_q/" + profile)
-                    continue
-                ctx.cov["traces_validated"] += 1
-                preempt = sum(1 for a, b in zip(di["steps"], di["steps"][1:]) if a.split()[1] != b.split()[1])
-                if preempt >= 3 and len(di["steps"]) >= 8:
-                    ctx.nontrivial_keys.add(hashlib.sha1("\n".join(di["steps"]).encode()).hexdigest())
-                if len(ctx.samples) < 2 and len(di["steps"]) > 12:
-                    ctx.samples.append({"suite": "conc_q/" + profile, "programs": progs, "seed": seed, "schedule_head": di["steps"][:16],
-                                        "rets": di["rets"], "queue": di["queue"]})
+        for vlabel, exe, only_ops in variants:
+            # the heterogeneous queue has no processUntil / takeEvent / peekEvent / DisableQueueNotify: the runs that use
+            # only calls it has are replayed on the same model (every second one, to bound the time)
+            runs = all_runs if only_ops is None else [r for r in all_runs if all(c in only_ops for p in r[1] for c in p)][::2]
+            ctx.dist["runs_" + vlabel] += len(runs)
+            B = 400
+            for off in range(0, len(runs), B):
+                chunk = runs[off:off + B]
+                text = "".join(suite_conc.run_text(*r) for r in chunk)
+                rc, out, err = vlib.run_harness(exe, text, timeout=600)
+                mtext = ""
+                for name, progs, seed, spur in chunk:
+                    sec = out.get(name)
+                    if sec is None:
+                        continue
+                    mtext += "--- %s\nflag %d\n" % (name, flag) + "".join("thread %s\n" % " ".join(p) for p in progs)
+                    mtext += "\n".join(l for l in sec if l.startswith("step ")) + "\n"
+                rcm, mout, errm = vlib.run_driver("conc", mtext, timeout=900)
+                for name, progs, seed, spur in chunk:
+                    ctx.cov["evaluations"] += 1
+                    sec = out.get(name)
+                    script = suite_conc.run_text(name, progs, seed, spur)
+                    if sec is None:
+                        nfail += 1
+                        if nfail <= 3:
+                            ctx.fail("violation", "implementation crashed / hung before this run finished (rc=%s): %s" % (rc, err[-800:]), script, vlabel + "/" + profile)
+                        continue
+                    di = suite_conc.parse(sec)
+                    orc = suite_conc.impl_oracles(progs, di)
+                    ctx.dist["steps"] += len(di["steps"])
+                    ctx.dist["threads"] += len(progs)
+                    ctx.dist["terminal_with_parked"] += 1 if (di["terminal"] and di["parked"]) else 0
+                    if orc:
+                        nfail += 1
+                        norc += 1
+                        if norc <= 3:
+                            kind = "violation"
+                            ctx.fail(kind, "%s: %s" % orc, script + "# schedule (global order of the performed micro-steps):\n" + "\n".join("# " + l for l in di["steps"]),
+                                     vlabel + "/" + profile, "\n".join(sec[-12:]))
+                            ctx.failures[-1]["classifier"] = "%s:%s" % (orc[0], "lost-wakeup" if orc[0] == "C07" else "conservation")
+                            ctx.failures[-1]["found_prop"] = orc[0]
+                        continue
+                    dm = suite_conc.parse(mout.get(name, []))
+                    why = None
+                    if dm["mismatch"]:
+                        why = dm["mismatch"][0]
+                    elif focus == "C11" and dm["c11bad"] and not any(c in suite_conc.PUTBACK for p in progs for c in p):
+                        why = dm["c11bad"][0]
+                    else:
+                        why = suite_conc.compare(di, dm)
+                    if why:
+                        nfail += 1
+                        if nfail <= 3:
+                            kind = "violation" if "c11bad" in why else "correspondence"
+                            ctx.fail(kind, why, script + "# schedule:\n" + "\n".join("# " + l for l in di["steps"]), vlabel + "/" + profile)
+                        continue
+                    ctx.cov["traces_validated"] += 1
+                    preempt = sum(1 for a, b in zip(di["steps"], di["steps"][1:]) if a.split()[1] != b.split()[1])
+                    if preempt >= 3 and len(di["steps"]) >= 8:
+                        ctx.nontrivial_keys.add(hashlib.sha1("\n".join(di["steps"]).encode()).hexdigest())
+                    if len(ctx.samples) < 2 and len(di["steps"]) > 12:
+                        ctx.samples.append({"suite": vlabel + "/" + profile, "programs": progs, "seed": seed, "schedule_head": di["steps"][:16],
+                                            "rets": di["rets"], "queue": di["queue"]})
         ctx.cov["failures"] += nfail
     return run
 
